@@ -115,10 +115,18 @@ def search(rng, res):
 	return cases(rng, 'thorough')
 
 
+def text_variants(imf, r850, asc):
+	"""the three forms, then texts of the same length as the IMF-fixdate that a lenient parser also reads: another weekday name,
+	lower case, a space-padded day"""
+	wrong = (b'Mon' if not imf.startswith(b'Mon') else b'Tue') + imf[3:]
+	padded = imf[:5] + b' ' + imf[6:] if imf[5:6] == b'0' else imf
+	return [imf, r850, asc, wrong, imf.lower(), padded, imf[:-3] + b'gmt']
+
+
 def requests(case):
 	if case[0] == 't':
 		imf, r850, asc, year = forms(case[1])
-		return ['c %d' % case[1], 'p %s' % imf.hex(), 'p %s' % r850.hex(), 'p %s' % asc.hex(), 'h %s' % imf.hex(), 'h %s' % r850.hex(), 'h %s' % asc.hex(), 'a %d' % case[1]]
+		return ['c %d' % case[1], 'p %s' % imf.hex(), 'p %s' % r850.hex(), 'p %s' % asc.hex(), 'h %s' % imf.hex(), 'h %s' % r850.hex(), 'h %s' % asc.hex(), 'a %d' % case[1], 'pc ' + ' '.join(x.hex() for x in text_variants(imf, r850, asc))]
 	if case[0] == 'cmp':
 		imf, r850, asc, year = forms(case[2])
 		return ['cmp %d %d %s %s %s' % (case[1], case[2], imf.hex(), r850.hex() if 1970 <= year <= 2068 else '-', asc.hex())]
@@ -249,6 +257,16 @@ def oracle(case):
 		# the instant handed over as datetime objects (aware with six offsets, naive UTC)
 		if year <= 9998 and base[7] != ' '.join(['%s:%d:1' % (imf.hex(), t)] * 7):
 			bad.append('Date(datetime) for the instant, aware with offsets 0/+2h/-5:30/+12:45/+14h/-12h and naive UTC, gives (text:instant:equal) %s' % base[7])
+		# a date built from a text serialises canonically (the three forms must be read; the lenient variants may be refused)
+		pcs = base[8].split(' ')
+		for i, (txt, got) in enumerate(zip(text_variants(imf, r850, asc), pcs)):
+			if i == 1 and not 1970 <= year <= 2068:
+				continue
+			if got.startswith('err:'):
+				if i < 3:
+					bad.append('Date(%r) raised %s' % (txt, got[4:]))
+			elif got != imf.hex():
+				bad.append('Date(%r) serialises as %r, the canonical form of its instant is %r' % (txt, bytes.fromhex(got), imf))
 		if bad:
 			return {'what': '; '.join(bad), 'instant': t, 'finding': None}
 	if case[0] == 'cmp':
